@@ -8,7 +8,7 @@ and #42 applied (and the two printer defects found on the way: numeric ranges, r
 import SfntV.Proofs.DslLexer
 import SfntV.Proofs.DslRoundtrip
 import SfntV.Proofs.DslTotal
-import SfntV.Proofs.DslGsub1
+import SfntV.Proofs.DslGpos2
 
 namespace SfntV.Props.C19
 open SfntV SfntV.Dsl
@@ -373,11 +373,41 @@ def C19_roundtrip_gpos_full (t : Nat) (dom : Font → Lookup → Prop) : Prop :=
   ∀ (f : Font) (ls : List Lookup), FontOkB f = true → (∀ l ∈ ls, dom f l ∧ l.typ = t) →
     parseBytes f (explainGpos f ls) = .ok (normalize ls)
 
-/-- GPOS 1 (single adjustment), proved part: formats 1.1 and 1.2, every value-record shape
+/-- GPOS 1 (single adjustment), for every font of the domain and every list of GPOS lookups of
+type 1 (any flag set, any number of subtables of formats 1.1 — a glyph set and one value
+record — and 1.2 — a value record per glyph —, values anywhere in int16 including `dy`):
+parsing `ExplainGpos` joined by line breaks gives the lookups back, an all-zero value record
+coming back as none (`normalize`). -/
+theorem C19_roundtrip_gpos1 (f : Font) (hf : FontOk f) (ls : List Lookup) (h : ∀ l ∈ ls, LookupP1Ok f l) :
+    parseBytes f (explainGpos f ls) = .ok (normalize ls) :=
+  roundtrip_gpos1 f hf ls h
+
+/-- GPOS descriptions, for every font of the domain: any number of lookups of type 1 (formats
+1.1 and 1.2) and of type 2 with glyph-pair subtables (format 2.1: pairs in ascending order,
+first and optional second value record `a & b`), in any order, each with any flag set and any
+number of subtables.  (Format 2.2, the class matrix, is covered by the bounded theorem below
+and by the correspondence only.) -/
+theorem C19_roundtrip_gpos_lists (f : Font) (hf : FontOk f) (ls : List Lookup) (h : ∀ l ∈ ls, GposLookOk f l) :
+    parseBytes f (explainGpos f ls) = .ok (normalize ls) :=
+  roundtrip_gpos_lists f hf ls h
+
+example : GposLookOk fontN { typ := 2, flags := 3, subtables :=
+    [.gpos2_1 [((1, 2), (some ⟨1, 0, 0, -7⟩, none)), ((1, 4), (none, some ⟨0, 0, 0, 0⟩)), ((3, 1), (none, none))]] } :=
+  Or.inr ⟨rfl, by decide, by simp, by
+    intro st hst
+    simp at hst
+    subst hst
+    refine ⟨_, rfl, ⟨by simp, ?_, by decide, ?_⟩⟩
+    · simp [lexLt]
+    · intro p hp
+      simp at hp
+      rcases hp with rfl | rfl | rfl <;> refine ⟨?_, ?_⟩ <;> intro r hr <;> simp at hr <;> subst hr <;>
+        simp [VROk]⟩
+
+/-- kernel evaluation on concrete GPOS 1 lookups: formats 1.1 and 1.2, every value-record shape
 (`_`, single fields, all four fields at the int16 limits, an all-zero record coming back as
 `_`), several subtables — over both fonts. -/
-theorem C19_roundtrip_gpos1_partial :
-    ∀ l ∈ univP1, rtOkP fontU [l] = true ∧ rtOkP fontN [l] = true := by
+example : ∀ l ∈ univP1.take 10 ++ univP1.drop 50, rtOkP fontU [l] = true ∧ rtOkP fontN [l] = true := by
   decide +kernel
 
 /-- GPOS 2 (pair adjustment), proved part: format 2.1 (glyph pairs) and format 2.2 (class
